@@ -105,7 +105,9 @@ class GcodeHandlers(object):
 
         # Compute the number of segments to produce based on the length of the arc
         arcLength = abs(angularTravel) * radius
-        numSegments = int(math.ceil(arcLength / MM_PER_ARC_SEGMENT))
+        # Always produce at least one segment (the move to the end point), even for a degenerate arc
+        # whose computed length is zero
+        numSegments = max(1, int(math.ceil(arcLength / MM_PER_ARC_SEGMENT)))
 
         angle = math.atan2(-j, -i)
         angularIncrement = angularTravel / numSegments
